@@ -301,6 +301,21 @@ class Check:
         sys.path.insert(0, os.path.join(VERIF, "tools"))
         import extract
         xok, xmsgs = extract.run(REPO)
+        if not xok:
+            # An extractor that no longer recognises its source concerns only the properties whose Lean modules import what it
+            # generates; for the others the tie is intact (their generated modules were regenerated successfully).
+            reg = extract.produces()
+            used = set()
+            for m in [prop_module] + list(extra_modules) + ["Drv." + d[4:].upper() for d in drivers if d.startswith("drv_")]:
+                for f in import_closure(m):
+                    if os.sep + "Gen" + os.sep in f:
+                        used.add(os.path.basename(f)[:-5])
+            relevant = [e for e in extract.FAILED if e not in reg or used & set(reg[e])]
+            if not relevant:
+                self.cov["translator_unrelated_failures"] = xmsgs
+                xok, xmsgs = True, []
+            else:
+                xmsgs = [m for m in xmsgs if any(m.startswith("extractor %s" % e) for e in relevant)]
         self.cov["translator"] = "ok" if xok else xmsgs
         self.cov["checker_cmd"] = "cd lean && lake build %s && lake env lean <#print axioms of each theorem>" % prop_module
         okd, outd = lake_build(list(drivers)) if drivers else (True, "")
